@@ -229,24 +229,44 @@ def run(ctx: Ctx) -> None:
 
     split_rule(ctx)
 
-    r = ctx.rule("R05.index", "name[i] = base + i * element size, after the unknown-name check")
-    pp_ = m.method(pc, "_process_pseudo_instructions", own=True)
+    r = ctx.rule("R05.index", "name[i] = base + i * element size (the source of each by-name lui/addi pair, locals substituted)")
+    from ..sliceval import enclosing_blocks, forms_at, symbolic_at
+    from ..symflow import Printer
+    pp_ = m.method(pc, "_process_pseudo_instructions")
+    loop = next((n for n in pp_.node.body if isinstance(n, ast.For)), None)
+    al = {}
+    if loop is not None and isinstance(loop.target, ast.Tuple) and len(loop.target.elts) == 3:
+        al = {loop.target.elts[0].id: "N", loop.target.elts[1].id: "L", loop.target.elts[2].id: "E"}
+    pr = Printer(m, pp_.params, al, canonical=True)
     n_idx = 0
-    for n in walk_no_nested(pp_.node):
-        if isinstance(n, ast.Assign) and ast.unparse(n.targets[0]) == "array_index":
-            n_idx += 1
-            v = n.value
-            ok = isinstance(v, ast.BinOp) and isinstance(v.op, ast.Mult) and \
-                " ".join(ast.unparse(v.left).split()) in ("self.variables[line_parsed.variable.name][1]", "(self.variables[line_parsed.variable.name][1])") and \
-                isinstance(v.right, ast.IfExp) and ast.unparse(v.right.test) == "line_parsed.variable.index" and const_int(v.right.orelse) == 0 \
-                and "line_parsed.variable.index" in ast.unparse(v.right.body)
-            r.check(ok, f"array_index#{n_idx}", pp_.loc(n), "array offset is not element_size * (index or 0)")
-        if isinstance(n, ast.Assign) and ast.unparse(n.targets[0]) == "address" and "self.variables" in ast.unparse(n.value):
-            ok = linform(n.value) == {"self.variables[line_parsed.variable.name][0]": 1, "array_index": 1}
-            r.check(ok, f"address#{n_idx}", pp_.loc(n), "element address is not base + array offset")
+    VAR = "P0.variables[E.variable.name]"
+    IDX = "P0._literal_to_int(base=10, line=L, line_number=N, literal=E.variable.index)"
+    want = {f"Add(Mult({VAR}[1], cases[E.variable.index]{{0 #1; {IDX} #2}}), {VAR}[0])",
+            f"Add(Mult({VAR}[1], cases[E.variable.index]{{0 #1; int(E.variable.index) #2}}), {VAR}[0])"}
+    for st in ast.walk(pp_.node):
+        if not isinstance(st, ast.stmt) or isinstance(st, (ast.If, ast.For, ast.While, ast.Try, ast.With, ast.FunctionDef, ast.Match)):
+            continue
+        for js in ast.walk(st):
+            if isinstance(js, ast.JoinedStr) and js.values and isinstance(js.values[0], ast.Constant) and str(js.values[0].value).lower().startswith("lui "):
+                holes = [v.value for v in js.values if isinstance(v, ast.FormattedValue)]
+                try:
+                    (hi,), env = forms_at(m, pp_, st, [holes[-1]])
+                except Exception:
+                    continue
+                srcs = sorted({v for (v, _b) in list(hi.bits) + list(hi.tails)})
+                if len(srcs) != 1:
+                    continue
+                defs = symbolic_at(pp_, st, {srcs[0]})
+                if srcs[0] not in defs or "variables" not in ast.unparse(defs[srcs[0]]):
+                    continue  # li: the source is the literal itself
+                n_idx += 1
+                got = pr.show(defs[srcs[0]])
+                r.check(got in want, f"address#{n_idx}", pp_.loc(st),
+                        f"the address of name[i] is `{Printer(m, pp_.params, al).show(defs[srcs[0]])}`; it must be "
+                        "variables[name][0] + variables[name][1] * (index or 0)")
     if n_idx < 2:
-        raise AnalysisError("R05.index: array index computations vanished")
-    r.floor(4)
+        raise AnalysisError("R05.index: the two by-name address computations (load/la and store) vanished")
+    r.floor(2)
 
     r = ctx.rule("R05.base", "layout starts at the first data address; data before expansion; declaration order")
     txt = " ".join(ast.unparse(wd.node).split())
